@@ -124,25 +124,43 @@ def import_view(sim):
             "on_disk": pathlib.Path(sim.nodes["a"].root, "acq", "new0").exists()}
 
 
+def import_records(sim):
+    """(acquisition known, file known, copy row) of acq/new0 on node a, as a Coq db term"""
+    from vf.core import cbool
+
+    a = w.ArchiveAcq.get_or_none(name="acq")
+    f = a and w.ArchiveFile.get_or_none(acq=a, name="new0")
+    c = f and w.ArchiveFileCopy.get_or_none(file=f, node=sim.nodes["a"])
+    HAS = {"Y": "HY", "M": "HM", "X": "HX", "N": "HN"}
+    WANTS = {"Y": "WY", "M": "WM", "N": "WN"}
+    row = "None" if not c else f"(Some ({HAS[c.has_file]}, {WANTS[c.wants_file]}))"
+    return f"(D {cbool(a is not None)} {cbool(bool(f))} {row})"
+
+
 def explore_imports(ctx, base):
     from vf.harness import daemon
+
+    iterms, ikeep = [], []
 
     for kind in ("file", "scan", "known-acq-file"):
         spec = import_spec(kind)
         sim = daemon.Sim(base / "imp", spec)
         try:
+            d0 = import_records(sim)
             n = sim.iterate("h1")["ncalls"]
             for _ in range(2):
                 sim.iterate("h1")
             want = import_view(sim)
         finally:
             sim.shutdown()
+        seen, finals = [], []
         for j in range(1, n + 1):
             sim = daemon.Sim(base / "imp", spec)
             rp = {"family": "import", "kind": kind, "crash_at": j}
             try:
                 sim.iterate("h1", crash_at=j)
                 v = import_view(sim)
+                seen.append(import_records(sim))
                 ctx.count("import-crash")
                 # (a file record without its copy record is allowed here: the request stays pending and the retry adds the copy)
                 if v["ireq_done"] == [True] and not any(c[2] == "Y" for c in v["copies"]):
@@ -154,11 +172,18 @@ def explore_imports(ctx, base):
                     if r["error"]:
                         ctx.fail("C09:daemon-died", f"after a kill at call {j} of an import the restarted daemon died: {r['error'][:300]}", rp)
                 got = import_view(sim)
+                finals.append(import_records(sim))
                 if got != want:
                     ctx.fail("C09:import-not-recovered", f"killed at call {j} of an import ({kind}): after restart {got}, uninterrupted run {want}", rp)
             finally:
                 sim.shutdown()
         ctx.distinct_add(("import", kind))
+        for fin in (finals or [d0]):
+            iterms.append(f"({d0}, [" + "; ".join(seen) + f"], {fin})")
+            ikeep.append((kind, seen, fin))
+    bad = core.run_cases(ctx, "importcrash", "Corr.C09", "icase", "icheck", iterms, shard=200, extra_imports=("Model.Import", "Proofs.ImportCrashProofs"))
+    for b in bad[:3]:
+        ctx.broke("correspondence", f"import crash states: model and implementation differ on {ikeep[b]}")
 
 
 # ---- multi-item histories with one kill -------------------------------------------------------------------------------------
